@@ -25,6 +25,7 @@ import nmfu  # noqa: E402
 import lark  # noqa: E402
 
 TERMINATING = -9
+_GARBAGE = []
 
 
 def _enum_index(lit):
@@ -348,7 +349,18 @@ def main():
                 res = {"id": job.get("id"), "ok": False, "crash": type(e).__name__, "err": str(e)[:200]}
         else:
             sys.stdout = io.StringIO()
+            # history perturbation for the purity check (C20): other compilations first, garbage objects kept alive
+            for pre in job.get("pre", []):
+                try:
+                    run_job({"id": -1, "src": pre["src"], "args": pre.get("args", []), "want": ["machine", "codegen"]})
+                except BaseException:
+                    pass
+            if job.get("garbage"):
+                _GARBAGE.append([object() for _ in range(int(job["garbage"]))] + [dict(a=i) for i in range(int(job["garbage"]) // 7)])
             res = run_job(job)
+            for k in range(int(job.get("repeat", 0))):
+                res2 = run_job(job)
+                res["repeat_%d" % (k + 1)] = {x: res2.get(x) for x in ("outcome", "errclass", "machine")}
         out.write(json.dumps(res) + "\n")
         out.flush()
 
